@@ -30,6 +30,11 @@ type RPC struct {
 	// GapUS: the caller waits this long before issuing the call (a late reply of the previous call
 	// can arrive in that gap and share a read with the echo of this request)
 	GapUS int64 `json:"gap_us,omitempty"`
+	// Sub (op subscribe): what the reply to establish-subscription holds: "ok-id" (result ok and
+	// an id), "bare-ok" (<ok/> only), "no-id" (result ok, no id), "error-result"
+	Sub string `json:"sub,omitempty"`
+	// Quote: the reply's body quotes a message-id attribute of another message in its text
+	Quote bool `json:"quote,omitempty"`
 }
 
 // Case is a session.
@@ -100,7 +105,7 @@ func gen(t *rapid.T) Case {
 		c.RootAttrs = rapid.IntRange(1, 9).Draw(t, "nRootAttrs")
 	}
 
-	transitUS := int64((600+60*c.RootAttrs)/minChunk+4)*(maxDelay/1000+2*100) + 1000
+	transitUS := int64((1300+60*c.RootAttrs)/minChunk+4)*(maxDelay/1000+2*100) + 1000
 
 	maxN := 12
 	if minChunk == 1 {
@@ -123,11 +128,16 @@ func gen(t *rapid.T) Case {
 			Behaviour: rapid.SampledFrom([]string{"now", "now", "now", "late", "never"}).Draw(t, "behaviour"),
 			TimeoutUS: transitUS + int64(rapid.IntRange(10, 40).Draw(t, "timeoutExtraMS"))*1000,
 			Marker:    fmt.Sprintf("m%d-%s", i, rapid.StringMatching(`[a-z]{3}`).Draw(t, "marker")),
-			Op:        rapid.SampledFrom([]string{"get", "get-config", "lock"}).Draw(t, "op"),
+			Op:        rapid.SampledFrom([]string{"get", "get-config", "lock", "get", "get-config", "lock", "subscribe"}).Draw(t, "op"),
+			Quote:     rapid.IntRange(0, 3).Draw(t, "quote") == 0,
 		}
 
-		if r.Op == "lock" {
+		if r.Op == "lock" || r.Op == "subscribe" {
 			r.TimeoutUS = c.ConnTimeoutUS
+		}
+
+		if r.Op == "subscribe" {
+			r.Sub = rapid.SampledFrom([]string{"ok-id", "ok-id", "bare-ok", "no-id", "error-result"}).Draw(t, "sub")
 		}
 
 		switch r.Behaviour {
@@ -187,7 +197,24 @@ func run(c Case) ev.Verdict {
 			extra += fmt.Sprintf(` xmlns:m%d="urn:example:params:xml:ns:yang:module-%d"`, i, i)
 		}
 
-		payload := fmt.Sprintf(`<rpc-reply xmlns="%s"%s message-id="%s"><marker>%s</marker><ok/></rpc-reply>`, sim.BaseNS, extra, r.MessageID, spec.Marker)
+		body := "<ok/>"
+
+		const notifNS = "urn:ietf:params:xml:ns:yang:ietf-event-notifications"
+
+		switch spec.Sub {
+		case "ok-id":
+			body = fmt.Sprintf(`<subscription-result xmlns="%s" xmlns:notif-bis="%s">notif-bis:ok</subscription-result><subscription-id xmlns="%s">%d</subscription-id>`, notifNS, notifNS, notifNS, 1000+r.Index)
+		case "no-id":
+			body = fmt.Sprintf(`<subscription-result xmlns="%s" xmlns:notif-bis="%s">notif-bis:ok</subscription-result>`, notifNS, notifNS)
+		case "error-result":
+			body = fmt.Sprintf(`<subscription-result xmlns="%s" xmlns:notif-bis="%s">notif-bis:error-no-such-option</subscription-result>`, notifNS, notifNS)
+		}
+
+		if spec.Quote {
+			body = fmt.Sprintf(`<note>answer to the request after message-id="%d"</note>`, 7+r.Index) + body
+		}
+
+		payload := fmt.Sprintf(`<rpc-reply xmlns="%s"%s message-id="%s"><marker>%s</marker>%s</rpc-reply>`, sim.BaseNS, extra, r.MessageID, spec.Marker, body)
 
 		switch spec.Behaviour {
 		case "now":
@@ -272,6 +299,13 @@ func run(c Case) ev.Verdict {
 			if r != nil {
 				result, failed = r.Result, r.Failed
 			}
+		case "subscribe":
+			r, e := d.EstablishPeriodicSubscription("/a/b", 1000)
+			err = e
+
+			if r != nil {
+				result, failed = r.Result, r.Failed
+			}
 		default:
 			r, e := d.Lock("candidate")
 			err = e
@@ -297,7 +331,7 @@ func run(c Case) ev.Verdict {
 				}
 			}
 
-			if spec.Behaviour == "now" {
+			if spec.Behaviour == "now" && (spec.Sub == "" || spec.Sub == "ok-id") {
 				return ev.Fail("rpc %d (%s, reply sent %dus after the request, timeout %v): returned error %v although the reply was sent in full before the deadline",
 					i, spec.Op, spec.DelayUS, timeout, err)
 			}
@@ -317,8 +351,16 @@ func run(c Case) ev.Verdict {
 		// (a call that still gets hold of its own late reply is fine: the statement only forbids
 		// handing it to another call; whether it is "too late" is C05's business)
 
-		if failed != nil {
+		if failed != nil && (spec.Sub == "" || spec.Sub == "ok-id") {
 			return ev.Fail("rpc %d: reply marked failed: %v", i, failed)
+		}
+
+		if spec.Sub != "" {
+			v.Classes = append(v.Classes, "subscribe:"+spec.Sub)
+		}
+
+		if spec.Quote {
+			v.Classes = append(v.Classes, "body-quotes-a-message-id")
 		}
 
 		m := idRe.FindStringSubmatch(result)
